@@ -155,6 +155,9 @@ void h_pton_wild(void)
     unsigned int r, bits = 999, i, p = 0, k;
     static const char hexd[] = "0123456789abcdef";
     V_IN(in_a); V_IN(in_wgroups);
+#ifdef WG
+    in_wgroups = WG;                 /* one job per number of groups written */
+#endif
     V_ASSUME(in_wgroups >= 1 && in_wgroups <= 7);
     ctype_init();
     for (k = 0; k < 7; k++) {
